@@ -59,7 +59,7 @@ type c19env struct {
 	fresh map[string]string // result set -> last values line seen since its last change ("" = collected, line unknown)
 	isFr  map[string]bool
 	// outcome statistics
-	nUpd, nRead, nAvg, nLoop, maxN int
+	nUpd, nRead, nAvg, nLoop, maxN, nFinish int
 }
 
 func c19bits(x float64) string {
@@ -533,6 +533,46 @@ func c19run(res *c19result, mu *sync.Mutex) {
 			e.settle()
 			e.closeConns()
 			emit("ok")
+		case tk[1] == "finish" && len(tk) == 5:
+			// the run ends while a reader holds the global result set: the other connections are
+			// closed first, then - with the result set locked, as String/WriteValues/Collect lock
+			// it - the last connection (the package's own client) sends its final measures, the
+			// end marker and closes; only then the reader lets go and Listen runs to its end
+			host, err := strconv.Atoi(tk[3])
+			xs, ok := c19bitsList(tk[4])
+			if err != nil || !ok || e.mon == nil || e.nconn == 0 {
+				emit("bad-op")
+				continue
+			}
+			e.settle()
+			for j := 1; j < e.nconn; j++ {
+				e.conns[j].Close()
+			}
+			if e.nconn > 1 {
+				time.Sleep(10 * time.Millisecond)
+			}
+			gs := e.stats[e.gname]
+			gs.Lock()
+			for _, x := range xs {
+				monitor.RecordSingleMeasureWithHost(tk[2], x, host)
+			}
+			monitor.EndAndCleanup()
+			time.Sleep(25 * time.Millisecond)
+			gs.Unlock()
+			select {
+			case <-e.done:
+			case <-time.After(5 * time.Second):
+				e.mon.Stop()
+				fail("hang", "Listen did not return after the last connection was closed")
+			}
+			e.nconn, e.conns, e.encs = 0, nil, nil
+			if strings.ToLower(tk[2]) != "end" {
+				for _, x := range xs {
+					e.recordMon(tk[2], x, host)
+				}
+			}
+			e.nFinish++
+			emit("ok")
 		case tk[1] == "send" && len(tk) == 6:
 			cn, err1 := strconv.Atoi(tk[2])
 			x, ok := c19parseBits(tk[4])
@@ -870,7 +910,7 @@ func c19run(res *c19result, mu *sync.Mutex) {
 		return ">16"
 	}
 	mu.Lock()
-	res.outcome = fmt.Sprintf("sets=%d buckets=%d maxn=%s reads=%s avg=%d loop=%d", len(e.stats), nb, bucketN(e.maxN), bucketN(e.nRead), e.nAvg, e.nLoop)
+	res.outcome = fmt.Sprintf("sets=%d buckets=%d maxn=%s reads=%s avg=%d loop=%d finish=%d", len(e.stats), nb, bucketN(e.maxN), bucketN(e.nRead), e.nAvg, e.nLoop, e.nFinish)
 	mu.Unlock()
 }
 
@@ -1088,6 +1128,49 @@ func c19genAll(c *h.Ctx, yield func(*h.Case)) {
 	g.op("string s")
 	yield(g.cs)
 
+	start("corpus-average-shares-first-set") // seeded change C19-A: the union built on the first set's slice
+	for _, sn := range []string{"r1", "r2", "r3"} {
+		g.op("stats %s hosts=1,bf=2 servers=1", sn)
+	}
+	for _, v := range []float64{1, 2, 3} {
+		g.op("upd r1 m %s -1", bitsOf(v))
+	}
+	g.op("upd r2 m %s -1", bitsOf(10))
+	g.op("upd r3 m %s -1", bitsOf(100))
+	g.op("avg a12 r1,r2")
+	g.op("values a12")
+	g.op("avg a13 r1,r3")
+	g.op("values a13")
+	g.op("values a12")
+	g.op("acc a12 m")
+	g.op("upd r1 m %s -1", bitsOf(1000))
+	g.op("values a13")
+	g.op("acc a13 m")
+	g.op("values r1")
+	yield(g.cs)
+	start("corpus-last-connection-stalled") // seeded change C19-B: buffered measures dropped at the end of the run
+	g.op("stats g hosts=2,bf=2 -")
+	g.op("stats b1 hosts=2,bf=2 -")
+	g.op("mon g")
+	g.op("bucket 1 b1 %s", c19hexRules([]string{"1:2"}))
+	g.op("open 2")
+	for i := 1; i <= 5; i++ {
+		g.op("send 1 m %s 0", bitsOf(float64(i)))
+	}
+	{
+		var l []string
+		for i := 1; i <= 40; i++ {
+			l = append(l, bitsOf(float64(100+i)))
+		}
+		g.op("finish m 1 %s", strings.Join(l, ","))
+	}
+	g.op("values g")
+	g.op("acc g m")
+	g.op("get 1")
+	g.op("values b1")
+	g.op("acc b1 m")
+	yield(g.cs)
+
 	// ---- read-out sequences on one result set -------------------------------------------------
 	for i := 0; i < c.Pick(3000, 40000); i++ {
 		start("readouts")
@@ -1190,7 +1273,16 @@ func c19genAll(c *h.Ctx, yield func(*h.Case)) {
 			}
 		}
 		if loop {
-			g.op("close")
+			if r.Intn(10) == 0 {
+				var l []string
+				for q := 0; q < 1+r.Intn(30); q++ {
+					l = append(l, bitsOf(g.value(k)))
+				}
+				g.op("finish %s %d %s", names[r.Intn(nn)], g.host(), strings.Join(l, ","))
+				c.Count("op=finish")
+			} else {
+				g.op("close")
+			}
 		}
 		for b := -1; b < 4; b++ {
 			g.op("get %d", b)
@@ -1254,6 +1346,7 @@ func c19genAll(c *h.Ctx, yield func(*h.Case)) {
 		c.Count(fmt.Sprintf("valuekind=%d", k))
 		c.Count(fmt.Sprintf("same-measures=%v", same))
 		var sets []string
+		have := map[string][]string{} // measures each set already holds (no new names after averaging)
 		for s := 0; s < ns; s++ {
 			sn := fmt.Sprintf("s%d", s)
 			sets = append(sets, sn)
@@ -1265,6 +1358,7 @@ func c19genAll(c *h.Ctx, yield func(*h.Case)) {
 				for q := 0; q < 1+r.Intn(6); q++ {
 					g.op("upd %s %s %s -1", sn, n, bitsOf(g.value(k)))
 				}
+				have[sn] = append(have[sn], n)
 			}
 			if !same && r.Intn(3) == 0 {
 				g.op("upd %s extra %s -1", sn, bitsOf(g.value(k)))
@@ -1292,8 +1386,70 @@ func c19genAll(c *h.Ctx, yield func(*h.Case)) {
 			g.op("values av2")
 			g.accAll("av2", names)
 		}
+		// results read earlier must still stand after what happens next: the same first set is
+		// averaged again with another set, the arguments record further values of measures they
+		// already hold, other averages are read - then the first average is read again
+		if len(srcs) > 0 && r.Intn(2) == 0 {
+			c.Count("deferred-reread")
+			g.newStats("t")
+			for _, n := range have[srcs[0]] {
+				for q := 0; q < 1+r.Intn(2); q++ {
+					g.op("upd t %s %s -1", n, bitsOf(g.value(k)))
+				}
+			}
+			g.op("avg av3 %s,t", srcs[0])
+			g.op("values av3")
+			g.accAll("av3", names)
+			if r.Intn(2) == 0 {
+				sn := srcs[r.Intn(len(srcs))]
+				if l := have[sn]; len(l) > 0 {
+					g.op("upd %s %s %s -1", sn, l[r.Intn(len(l))], bitsOf(g.value(k)))
+				}
+			}
+			if r.Intn(3) == 0 {
+				g.op("avg av4 %s", strings.Join(append([]string{srcs[0]}, sets...), ","))
+				g.readout("av4")
+			}
+			g.op("values av")
+			g.accAll("av", append(names, "extra"))
+			g.op("values av3")
+			g.accAll("av3", names)
+		}
 		for _, sn := range sets {
 			g.op("values %s", sn)
+		}
+		yield(g.cs)
+	}
+
+	// ---- the run ends on the last connection while a reader holds the result set ---------------
+	for i := 0; i < c.Pick(40, 400); i++ {
+		start("last-connection")
+		g.newStats("g")
+		g.op("mon g")
+		nb := r.Intn(3)
+		var bnames []string
+		for b := 0; b < nb; b++ {
+			bn := fmt.Sprintf("b%d", b)
+			g.newStats(bn)
+			g.op("bucket %d %s %s", b, bn, c19hexRules(g.rules(false)))
+			bnames = append(bnames, bn)
+		}
+		nconn := 1 + r.Intn(3)
+		g.op("open %d", nconn)
+		k := g.kind()
+		names := []string{c19names[r.Intn(7)], c19names[r.Intn(7)]}
+		for j := 0; j < r.Intn(8); j++ {
+			g.op("send %d %s %s %d", r.Intn(nconn), names[r.Intn(2)], bitsOf(g.value(k)), g.host())
+		}
+		var l []string
+		for q := 0; q < 2+r.Intn(39); q++ {
+			l = append(l, bitsOf(g.value(k)))
+		}
+		g.op("finish %s %d %s", names[0], r.Intn(6), strings.Join(l, ","))
+		c.Count("op=finish")
+		for _, sn := range append([]string{"g"}, bnames...) {
+			g.op("values %s", sn)
+			g.accAll(sn, names)
 		}
 		yield(g.cs)
 	}
@@ -1303,7 +1459,7 @@ func c19genAll(c *h.Ctx, yield func(*h.Case)) {
 		{"c19 values nosuch"}, {"c19 mon nosuch"}, {"c19 stats s hosts=1 -", "c19 stats s hosts=1 -"},
 		{"c19 stats s hosts=1 -", "c19 upd s m zz -1"}, {"c19 stats s hosts=1 -", "c19 upd s m 3ff0000000000000 x"},
 		{"c19 open 2"}, {"c19 close"}, {"c19 frobnicate"}, {"c19 stats s hosts=1 -", "c19 mon s", "c19 send 0 m 3ff0000000000000 1"},
-		{"c19 get 0"}, {"c19 stats s hosts -"}, {"c19 avg a nosuch"},
+		{"c19 get 0"}, {"c19 stats s hosts -"}, {"c19 avg a nosuch"}, {"c19 stats s hosts=1 -", "c19 mon s", "c19 finish m 0 3ff0000000000000"},
 	} {
 		start("refused")
 		g.cs.Ops = ops
